@@ -316,16 +316,23 @@ def run_history(ctx, rng, cfg, nops):
     h0 = hashlib.sha256(base_img).hexdigest()
     budget = 6 if ctx.quick else 25
     for idx, (pos, (vop, cause)) in enumerate(injected[:budget]):
+        judge(ctx, cfg, base_ops, base_res, h0, pos, vop, cause, pending_lines.get(idx))
+    ctx.traces_validated += 1
+
+
+def judge(ctx, cfg, base_ops, base_res, h0, pos, vop, cause, atomic_line_=None):
+    """insert the refusing call at `pos`; the final image and the later edits must be those of the history without it"""
+    if True:
         ops = base_ops[:pos] + [vop] + base_ops[pos:]
         img, res, err = image_of(cfg, ops)
         r = res[pos]
         rp = {'kind': 'history', 'cfg': cfg, 'ops': ops, 'pos': pos, 'cause': cause}
-        if idx in pending_lines:
-            ctx.atomic.append((pending_lines[idx], r, cause, rp))
+        if atomic_line_ is not None:
+            ctx.atomic.append((atomic_line_, r, cause, rp))
         ctx.count(key=(repr(sorted(cfg.items())), repr(ops)), nontrivial=(r != 'ok'), kind='variant:%s:%s' % (cause, r),
                   sample={'cfg': cfg, 'refusing': histcheck.short(vop), 'cause': cause, 'result': r} if r != 'ok' else None)
         if r == 'ok':
-            continue            # not a refusal after all
+            return              # not a refusal after all
         if r != 'invalidInput':
             ctx.violation('C14.refusal-class/%s/%s' % (cause, r), 'refused call %s (%s) raised %s, not PyCdlibInvalidInput' % (histcheck.short(vop), cause, r), rp)
         later = res[pos + 1:]
@@ -335,7 +342,45 @@ def run_history(ctx, rng, cfg, nops):
             ctx.violation('C14.partial/%s/write-fails' % cause, 'after the refused call %s (%s) the image no longer masters: %s' % (histcheck.short(vop), cause, err), rp)
         elif hashlib.sha256(img).hexdigest() != h0:
             ctx.violation('C14.partial/%s/image-differs' % cause, 'the refused call %s (%s) changed the image that is written afterwards' % (histcheck.short(vop), cause), rp)
-    ctx.traces_validated += 1
+
+
+def directed_refusals(ctx):
+    """refusals that need a particular tree: a later namespace refuses although the first one could proceed"""
+    for cfg in ({'ilevel': 3, 'rr': '1.09', 'joliet': 3, 'udf': '2.60', 'xa': False}, {'ilevel': 1, 'rr': None, 'joliet': 3, 'udf': '2.60', 'xa': False},
+                {'ilevel': 3, 'rr': '1.12', 'joliet': None, 'udf': '2.60', 'xa': True}):
+        def names(iso, other, rrname=None):
+            d = {'iso': iso}
+            if cfg.get('rr'):
+                d['rr'] = rrname or other.split('/')[-1]
+            if cfg.get('joliet'):
+                d['joliet'] = other
+            if cfg.get('udf'):
+                d['udf'] = other
+            return d
+        base = [dict({'op': 'adddir'}, **names('/E', '/e')), dict({'op': 'adddir'}, **names('/F', '/f')),
+                {'op': 'addfp', 'cid': 1, 'n': 3, 'udf': '/f/only'},
+                dict({'op': 'adddir'}, **names('/G', '/g')), dict({'op': 'addfp', 'cid': 2, 'n': 5}, **names('/G/A.;1', '/g/a')),
+                dict({'op': 'addfp', 'cid': 3, 'n': 7}, **names('/G/B.;1', '/g/b')),
+                dict({'op': 'adddir'}, **names('/H', '/h')), {'op': 'addsym', 'udf': '/h/lnk', 'utarget': 'x'},
+                dict({'op': 'addfp', 'cid': 4, 'n': 9}, **names('/Z.;1', '/z'))]
+        img, res, err = image_of(cfg, base)
+        if err or any(r != 'ok' for r in res):
+            ctx.notes.append('directed refusal base not accepted under %s: %s %s' % (cfg, res, err))
+            continue
+        h0 = hashlib.sha256(img).hexdigest()
+        cand = [({'op': 'rmdir', 'iso': '/E', 'udf': '/f'}, 'rmdir/ns3/one-udf-entry'),
+                ({'op': 'rmdir', 'iso': '/E', 'udf': '/h'}, 'rmdir/ns3/one-udf-symlink'),
+                ({'op': 'rmdir', 'iso': '/E', 'udf': '/g'}, 'rmdir/ns3/two-entries'),
+                ({'op': 'rmdir', 'iso': '/F', 'udf': '/f'}, 'rmdir/same-dir/udf-only-child'),
+                ({'op': 'rmdir', 'iso': '/E', 'udf': '/z'}, 'rmdir/ns3/is-file')]
+        if cfg.get('joliet'):
+            cand += [({'op': 'rmdir', 'iso': '/E', 'joliet': '/g'}, 'rmdir/ns2/not-empty'),
+                     ({'op': 'rmdir', 'joliet': '/e', 'udf': '/f'}, 'rmdir/joliet+udf/one-udf-entry'),
+                     ({'op': 'rmdir', 'iso': '/E', 'joliet': '/e', 'udf': '/h'}, 'rmdir/all/one-udf-symlink'),
+                     ({'op': 'rmdir', 'iso': '/E', 'joliet': '/z'}, 'rmdir/ns2/is-file')]
+        for vop, cause in cand:
+            for pos in (len(base), len(base) - 1):
+                judge(ctx, cfg, base, res, h0, pos, vop, 'directed/' + cause)
 
 
 def check_atomic(ctx):
@@ -355,6 +400,7 @@ def check_atomic(ctx):
 
 def run(ctx):
     ctx.atomic = []
+    directed_refusals(ctx)
     n = 250 if ctx.quick else 5000
     for _ in range(n):
         seed = ctx.rng.randrange(2 ** 62)
